@@ -2,7 +2,7 @@
    known to deviate from the reference semantics.  Each clause is one entry of KNOWN_FINDINGS.jsonl; the
    refinement theorem is proved for programs on which every clause holds. *)
 From Coq Require Import String List ZArith Bool Arith.
-From DV Require Import Base.Util Hooks.Names Py.Syntax Py.Sem Py.Instr.
+From DV Require Import Base.Util Hooks.Names Py.Syntax Py.Ops Py.Sem Py.Instr.
 Import ListNotations.
 Open Scope string_scope.
 Open Scope list_scope.
